@@ -584,6 +584,9 @@ def c18(tier):
     plan = [("ref3", sets["ref3"], "compact,sparse", 400 if thorough else 200, 2),
             ("iso4", sets["iso4"], "compact", 200 if thorough else 48, 1),
             ("shaped", [a for a in sets["shaped"] if a["n"] <= (12 if thorough else 9)], "compact", 24 if thorough else 8, 1),
+            # funnels at the hybrid threshold whose defenders are a choice: the number of calls depends on which (possibly non-complete) sets the
+            # oracle returns first -- many more schedules are explored there
+            ("funnels", [a for a in sets["shaped"] if "funnel" in a.get("tag", "") and (a["n"] <= 10 or "twins" in a["tag"])], "compact", 400 if thorough else 120, 1),
             ("rand", sets["rand"], "compact", 24 if thorough else 6, 1),
             ("randlists", [a for a in sets["rand"] if a["n"] <= 5][:100 if thorough else 16], "compact", 6, 3),
             ("mid", sets["mid"] if thorough else sets["mid"][:16], "compact", 2, 1),
